@@ -598,6 +598,55 @@ def userauth_banner_cases(thorough):
         return list(ex.map(one, jobs))
 
 
+GLOBAL_REPLY_BODIES = [None, b"", b"\x00", b"\x00\x00\x10", b"\x00\x00\x10\x92", b"\x00\x00\x10\x92tail", b"\xff" * 4,
+                       b"\xff" * 9]
+
+
+def global_reply_cases():
+    """The peer's answer to a global request is parsed on the CALLER's thread (request_port_forward(addr, 0) reads
+    the allocated port from REQUEST_SUCCESS): every shape of reply body, REQUEST_FAILURE, and replies to
+    global_request(wait=True).  Returns [(case, exception or None)]."""
+    out = []
+    for bi, body in enumerate(GLOBAL_REPLY_BODIES):
+        for kind in ("port-forward-0", "port-forward-4000", "global-request"):
+            for verdict in ("success", "failure"):
+                if verdict == "failure" and bi > 1:
+                    continue
+                tc, ts, sc, ss, srv = lib_net.make_pair()
+                err = None
+                try:
+                    orig = ts.packetizer.send_message
+
+                    def send(m, orig=orig, body=body, verdict=verdict):
+                        raw = m.asbytes() if hasattr(m, "asbytes") else bytes(m)
+                        if raw[:1] in (b"\x51", b"\x52") and body is not None:  # REQUEST_SUCCESS / REQUEST_FAILURE
+                            from paramiko.message import Message
+
+                            m = Message((b"\x51" if verdict == "success" else b"\x52") + body)
+                        return orig(m)
+
+                    ts.packetizer.send_message = send
+                    srv.check_port_forward_request = (lambda a, p, v=verdict: (p or 4242) if v == "success" else False)
+                    srv.check_global_request = lambda k, m, v=verdict: v == "success"
+                    if kind == "port-forward-0":
+                        tc.request_port_forward("", 0, handler=lambda *a: None)
+                    elif kind == "port-forward-4000":
+                        tc.request_port_forward("", 4000, handler=lambda *a: None)
+                    else:
+                        r = tc.global_request("probe@pv", (1, "x"), wait=True)
+                        if r is not None:  # the documented way to look at the reply
+                            r.get_int()
+                            r.get_string()
+                            r.get_text() if r.get_remainder() else None
+                except BaseException as e:  # noqa
+                    err = e
+                finally:
+                    tc.close()
+                    ts.close()
+                out.append(("%d|%s|%s" % (bi, kind, verdict), err))
+    return out
+
+
 def gss_cases():
     """GSS-API authentication with a stub mechanism whose calls fail on peer-supplied tokens (no GSS library is
     installed; the stub's failure class stands for the library's GSSException).  Returns [(victim, where, exc)]."""
@@ -765,6 +814,18 @@ def run(ctx):
                      {"scenario": "server sends USERAUTH_BANNER then answers the attempt", "entry": entry,
                       "banner_hex": (AUTH_BANNERS[int(bi)] or b"")[:64].hex()},
                      "%s raised %r" % (entry, err))
+
+    # ---- (a5) replies to global requests, parsed on the caller's thread
+    for label, err in global_reply_cases():
+        bi, kind, verdict = label.split("|")
+        ctx.case(("global-reply", int(bi), kind, verdict, type(err).__name__), err is not None)
+        ctx.dist("global-reply:" + (classify(err) if err is not None else "returned"))
+        if err is not None and not isinstance(err, (_SSHE, EOFError, OSError)):
+            body = GLOBAL_REPLY_BODIES[int(bi)]
+            ctx.fail("internal-class-surfaced:global-request-reply:%s" % type(err).__name__,
+                     {"scenario": "peer answers a global request", "call": kind, "reply": verdict,
+                      "reply_body_hex": None if body is None else body.hex()},
+                     "%s raised %r" % (kind, err))
 
     # ---- (b) structured fuzz
 
